@@ -286,11 +286,55 @@ op_flush_burst(int mx)
 }
 
 /* ---- model glue ---- */
-static int is_burst;
+static int is_burst, is_mixed;
 static int jobops[2 * NK + 2], njobops;
+/* "+sync" modes: the alphabet of the job (or asynchronous burst) API plus synchronous hash bursts of 1 / 3 HMAC-SHA-512
+ * jobs, which share the HMAC-SHA-512 manager with parked S / L / C jobs */
+#define NSYNC 2
+static void
+op_sync_burst(int n)
+{
+        static IMB_JOB SJ[4];
+        static uint8_t stag[4][32];
+        for (int i = 0; i < n; i++) {
+                memset(&SJ[i], 0, sizeof SJ[i]);
+                SJ[i].chain_order = IMB_ORDER_CIPHER_HASH;
+                SJ[i].cipher_direction = IMB_DIR_ENCRYPT;
+                SJ[i].cipher_mode = IMB_CIPHER_NULL;
+                SJ[i].hash_alg = IMB_AUTH_HMAC_SHA_512;
+                SJ[i].src = src;
+                SJ[i].msg_len_to_hash_in_bytes = 40;
+                SJ[i].auth_tag_output = stag[i];
+                SJ[i].auth_tag_output_len_in_bytes = 32;
+                SJ[i].u.HMAC._hashed_auth_key_xor_ipad = ipad;
+                SJ[i].u.HMAC._hashed_auth_key_xor_opad = opad;
+                memset(stag[i], 0, 32);
+        }
+        uint32_t r = IMB_SUBMIT_HASH_BURST(m, SJ, (uint32_t) n, IMB_AUTH_HMAC_SHA_512);
+        if (r != (uint32_t) n || imb_get_errno(m))
+                viol("sync-burst-count", "synchronous hash burst among asynchronous jobs did not return exactly its own jobs", (long) r, n);
+        for (int i = 0; i < n; i++)
+                if (SJ[i].status != IMB_STATUS_COMPLETED || memcmp(stag[i], exp_tag[K_S], 32))
+                        viol("sync-burst-output", "job of a synchronous hash burst not completed or wrong digest", i, n);
+}
+static int
+base_ops(void)
+{
+        return is_burst ? NBOPS + NFLUSH : njobops;
+}
+static int
+total_ops(void)
+{
+        return base_ops() + (is_mixed ? NSYNC : 0);
+}
 static int
 apply(int op)
 {
+        if (is_mixed && op >= base_ops()) {
+                op_sync_burst(op - base_ops() ? 3 : 1);
+                post_invariants();
+                return 1;
+        }
         if (!is_burst) {
                 int o = jobops[op];
                 if (o < NK)
@@ -314,6 +358,10 @@ static char opname_buf[64];
 static const char *
 opname(int op)
 {
+        if (is_mixed && op >= base_ops()) {
+                snprintf(opname_buf, sizeof opname_buf, "syncburst(%d)", op - base_ops() ? 3 : 1);
+                return opname_buf;
+        }
         if (!is_burst) {
                 int o = jobops[op];
                 if (o < NK)
@@ -558,7 +606,7 @@ run_seed(long si, void *arg)
         bfs_model M = { .snap_size = sz_mgr + sz_h + sz_a + sizeof B + sizeof R,
                         .save = save,
                         .restore = restore,
-                        .nops = is_burst ? NBOPS + NFLUSH : njobops,
+                        .nops = total_ops(),
                         .apply = apply,
                         .key = key_fn,
                         .opname = opname,
@@ -606,7 +654,8 @@ main(int argc, char **argv)
         c14_mode = argc > 4 && !strcmp(argv[4], "C14");
         rec_init(c14_mode ? "C14" : "C05", getenv("VERIF_TIER") ? getenv("VERIF_TIER") : "quick");
         g_api = argc > 1 ? argv[1] : "job";
-        is_burst = !strcmp(g_api, "burst");
+        is_burst = !strncmp(g_api, "burst", 5);
+        is_mixed = strstr(g_api, "+sync") != NULL; /* "job+sync" / "burst+sync": synchronous hash bursts join the alphabet */
         const char *vsel = argc > 2 ? argv[2] : "all";
         const char *kinds = argc > 3 ? argv[3] : "ISLPCX";
         int thorough = tier_thorough();
@@ -640,7 +689,7 @@ main(int argc, char **argv)
                         bfs_model M = { .snap_size = sz_mgr + sz_h + sz_a + sizeof B + sizeof R,
                                         .save = save,
                                         .restore = restore,
-                                        .nops = is_burst ? NBOPS + NFLUSH : njobops,
+                                        .nops = total_ops(),
                                         .apply = apply,
                                         .key = key_fn,
                                         .opname = opname,
